@@ -23,7 +23,7 @@ import os
 import random
 
 from .fold import TOP, mk_int, mk_bool, to_py
-from . import peval, reference as ref
+from . import cache, peval, reference as ref
 from .rules_tables import anchor_fn, where_fn
 
 QRC = "qr::QRCode"
@@ -292,8 +292,7 @@ def c11_r9(ctx, f, rid="C11.R9"):
                 if any(not c[0] for c in cs):
                     lines.append(tuple(cs))
         lines += _long_lines()
-        with mp.Pool(ncpu) as pool:
-            res = [x for part in pool.map(_line_job, _chunks(lines, ncpu * 4)) for x in part]
+        res = [x for part in cache.pmap(f, "score-lines", _line_job, _chunks(lines, ncpu * 4), procs=ncpu) for x in part]
         order = None
         n_ok = 0
         for kind, val, line, _ in res:
@@ -394,8 +393,7 @@ def c11_r9(ctx, f, rid="C11.R9"):
                 for bias in (0.5, 0.03, 0.47, 0.97):
                     jobs.append(("score::dark_module_score", [_real_symbol(v, bias)], False))
         jobs.sort(key=lambda j: -max(len(m[0] if j[2] else m) for m in j[1]) ** 2 * len(j[1]))
-    with mp.Pool(ncpu) as pool:
-        res = pool.map(_matrix_job, jobs)
+    res = cache.pmap(f, "score-matrices", _matrix_job, jobs, procs=ncpu)
     models = {"score::matrix_score_squares": lambda m: (model_squares(m),), "score::dark_module_score": lambda m: (model_dark(m),),
               # columns from the second argument (the crate's contract), or from the candidate itself (second argument unused)
               "score::score": lambda ab: (model_total(ab[0], ab[1]), model_total(ab[0]))}
